@@ -58,6 +58,7 @@ type Program struct {
 	postBusy      map[*FuncInfo]bool
 	resLenCache   map[*FuncInfo][]resLen
 	resRangeCache map[*FuncInfo]*resRange
+	nonNilVars    map[*types.Var]bool
 	postcondBusy  bool
 
 	ssaProg *ssa.Program
